@@ -43,6 +43,7 @@ type Engine struct {
 	lemmaList  []*Lemma
 	specFuncs  map[string]*SpecFunc
 	smtDefs    []*SmtDef
+	foreignCache map[string]string
 	smtFuns    map[string]smtSig
 	smtSorts   map[string]string
 	ghostSorts map[string]string
@@ -1098,5 +1099,61 @@ func (e *Engine) sentinelError(g *ssa.Global) bool {
 		e.sentinels = map[*ssa.Global]bool{}
 	}
 	e.sentinels[g] = res
+	return res
+}
+
+// modeForeign reports a user SMT symbol that a clause of fc mentions and that is defined only for
+// the other arithmetic mode ("" if the contract can be used in mode m).
+func (e *Engine) modeForeign(fc *FuncContract, m Mode) string {
+	key := fc.Key() + "@" + m.String()
+	if r, ok := e.foreignCache[key]; ok {
+		return r
+	}
+	avail := map[string]bool{}
+	other := map[string]bool{}
+	for _, d := range e.smtDefs {
+		f := strings.Fields(d.Text)
+		if len(f) < 2 || !(strings.HasPrefix(d.Text, "(declare-fun") || strings.HasPrefix(d.Text, "(define-fun")) {
+			continue
+		}
+		name := strings.Trim(f[1], "()")
+		if d.Mode == "all" || d.Mode == m.String() {
+			avail[name] = true
+		} else {
+			other[name] = true
+		}
+	}
+	res := ""
+	var clauses []*Clause
+	clauses = append(clauses, fc.Requires...)
+	clauses = append(clauses, fc.Ensures...)
+	for _, c := range clauses {
+		if (strings.HasPrefix(c.Tag, "bv:") || strings.HasPrefix(c.Tag, "int:")) && !strings.HasPrefix(c.Tag, m.String()+":") {
+			continue
+		}
+		// identifiers of the clause, with specification macros expanded transitively
+		seen := map[string]bool{}
+		work := []string{c.Text}
+		for len(work) > 0 {
+			txt := work[len(work)-1]
+			work = work[:len(work)-1]
+			for _, id := range smtIdentRe.FindAllString(txt, -1) {
+				if seen[id] {
+					continue
+				}
+				seen[id] = true
+				if other[id] && !avail[id] {
+					res = id
+				}
+				if sf := e.specFuncs[id]; sf != nil {
+					work = append(work, sf.Body.Text)
+				}
+			}
+		}
+	}
+	if e.foreignCache == nil {
+		e.foreignCache = map[string]string{}
+	}
+	e.foreignCache[key] = res
 	return res
 }
